@@ -35,6 +35,8 @@ Definition fm_wf (mt : matcher) : Prop := NoDup (map fst (mt_args mt)).
 Section Spec.
 Variable c : cmd.
 Variable mt : matcher.
+(** the presence predicate on ids: [P] (what the matches report) or the member-based one of part 4 *)
+Variable P : id -> Prop.
 
 Definition arg_of (i : id) (a : arg) : Prop := find_arg c i = Some a.
 Definition group_of (i : id) (g : group) : Prop := find_arg c i = None /\ find_group c i = Some g.
@@ -52,7 +54,7 @@ Definition declares (x y : id) : Prop :=
   \/ (exists g, group_of x g /\ In y (g_conflicts g)).
 
 Definition exclusive_present : Prop :=
-  exists e b, arg_of e b /\ a_exclusive b = true /\ present mt e.
+  exists e b, arg_of e b /\ a_exclusive b = true /\ P e.
 
 (** what the present arg [root] (with explicit occurrence [m]) demands: the targets of its
     [requires]/[requires_if] rules whose predicate holds, closed under unconditional [requires] *)
@@ -64,18 +66,18 @@ Inductive Required : id -> Prop :=
 | Rq_static a : In a (c_args c) -> a_required a = true -> Required (a_id a)
 | Rq_group g : In g (c_groups c) -> g_required g = true -> Required (g_id g)
 | Rq_group_requires g y : In g (c_groups c) -> g_required g = true -> In y (g_requires g) -> Required y
-| Rq_present_group x g y : group_of x g -> present mt x -> In y (g_requires g) -> Required y
+| Rq_present_group x g y : group_of x g -> P x -> In y (g_requires g) -> Required y
 | Rq_requires root m y : fm_get root (mt_args mt) = Some m -> explicit_m m -> ReqBy root m y -> Required y.
 
 (** documented exemptions for a missing required arg [x]: something present conflicts with it
     (declared on either side, or against/by a group [x] belongs to) *)
 Definition excused (x : id) : Prop :=
-  (exists y, present mt y /\ y <> x /\ (declares x y \/ declares y x))
-  \/ (exists g y, member x g /\ present mt y /\ y <> g_id g /\ (declares (g_id g) y \/ declares y (g_id g))).
+  (exists y, P y /\ y <> x /\ (declares x y \/ declares y x))
+  \/ (exists g y, member x g /\ P y /\ y <> g_id g /\ (declares (g_id g) y \/ declares y (g_id g))).
 
 Definition satisfied (x : id) : Prop :=
-  (forall a, arg_of x a -> present mt x \/ exclusive_present \/ excused x)
-  /\ (forall g, group_of x g -> present mt x \/ exists m, In m (g_args g) /\ present mt m).
+  (forall a, arg_of x a -> P x \/ exclusive_present \/ excused x)
+  /\ (forall g, group_of x g -> P x \/ exists m, In m (g_args g) /\ P m).
 
 (** [required_if_eq_any] / [required_if_eq_all] / [required_unless_present(_any)] /
     [required_unless_present_all] *)
@@ -83,25 +85,27 @@ Definition cond_required (a : arg) : Prop :=
   (exists o v, In (o, v) (a_r_ifs a) /\ has_value mt o v)
   \/ (a_r_ifs_all a <> [] /\ forall o v, In (o, v) (a_r_ifs_all a) -> has_value mt o v)
   \/ ((a_r_unless a <> [] \/ a_r_unless_all a <> [])
-      /\ (forall o, In o (a_r_unless a) -> ~ present mt o)
-      /\ (a_r_unless_all a = [] \/ exists o, In o (a_r_unless_all a) /\ ~ present mt o)).
+      /\ (forall o, In o (a_r_unless a) -> ~ P o)
+      /\ (a_r_unless_all a = [] \/ exists o, In o (a_r_unless_all a) /\ ~ P o)).
 
 Definition negates_reqs : bool := is_set s_subs_negate_reqs c && is_some (mt_sub mt).
 
-Record Relations : Prop := {
+Record RelationsP : Prop := {
   (** (R1) no present arg together with a present arg or group one of them declares a conflict with;
       covers the members of a non-multiple group *)
-  rel_conflicts : forall i a x, arg_of i a -> present mt i -> present mt x -> x <> i ->
+  rel_conflicts : forall i a x, arg_of i a -> P i -> P x -> x <> i ->
                                 ~ declares i x /\ ~ declares x i;
   (** (R2) an exclusive arg is the only present arg *)
-  rel_exclusive : forall i a j b, arg_of i a -> a_exclusive a = true -> present mt i ->
-                                  arg_of j b -> present mt j -> j = i;
+  rel_exclusive : forall i a j b, arg_of i a -> a_exclusive a = true -> P i ->
+                                  arg_of j b -> P j -> j = i;
   (** (R3) every required id is present or excused, unless a subcommand negates requirements *)
   rel_required : negates_reqs = false -> forall x, Required x -> satisfied x;
   rel_cond_required : negates_reqs = false -> forall a, In a (c_args c) -> cond_required a ->
-                                  present mt (a_id a) \/ exclusive_present
+                                  P (a_id a) \/ exclusive_present
 }.
 End Spec.
+
+Definition Relations (c : cmd) (mt : matcher) : Prop := RelationsP c mt (present mt).
 
 (** id-resolution facts of a command that passed [assert_app]: group ids are unique and
     group members are arguments *)
@@ -613,7 +617,7 @@ Qed.
 
 Lemma gather_requires_spec mt required :
   fm_wf mt -> gather_requires c mt (required_graph c) = Some required ->
-  forall x, Required c mt x -> In x required.
+  forall x, Required c mt (present mt) x -> In x required.
 Proof.
   intros Wm H. rewrite gather_requires_unfold in H. apply gr_fold_spec in H as [Hi He].
   intros x HR. destruct HR as [a Hin Hr | g Hin Hr | g y Hin Hr Hy | x g y [Hna Hg] Hp Hy | root m y Hg Hm HR].
@@ -710,7 +714,7 @@ Qed.
 
 Lemma imr_ok_spec mt potential a :
   fm_wf mt -> conflicts_with_args c mt = Some potential ->
-  is_missing_required_ok c potential a = Some true -> excused c mt (a_id a).
+  is_missing_required_ok c potential a = Some true -> excused c (present mt) (a_id a).
 Proof.
   intros Wm Hp. unfold is_missing_required_ok, excused.
   destruct (gather_conflicts c potential (a_id a)) as [l|] eqn:Eg; [|discriminate].
@@ -727,7 +731,7 @@ Qed.
 Definition excl_present_b (mt : matcher) : bool :=
   existsb (fun p => match find_arg c (fst p) with Some a => a_exclusive a | None => false end)
           (explicit_entries mt).
-Lemma excl_present_spec mt : fm_wf mt -> excl_present_b mt = true -> exclusive_present c mt.
+Lemma excl_present_spec mt : fm_wf mt -> excl_present_b mt = true -> exclusive_present c (present mt).
 Proof.
   intros Wm. unfold excl_present_b. rewrite existsb_exists. intros ([e m] & Hin & H). cbn [fst] in H.
   destruct (find_arg c e) as [b|] eqn:Eb; [|discriminate].
@@ -862,7 +866,7 @@ Proof.
   destruct (a_index x) as [i|]; [destruct (i <? highest); [|exact H]|]; now apply app_one_not_nil in H.
 Qed.
 
-Lemma cond_b_spec mt a : cond_required mt a -> cond_b mt a = true.
+Lemma cond_b_spec mt a : cond_required mt (present mt) a -> cond_b mt a = true.
 Proof.
   unfold cond_required, cond_b. intros [(o & v & Hin & Hv)|[(Hne & Hall)|(Hne & Hany & Hallu)]].
   - apply orb_true_iff. left. apply orb_true_iff. left. apply existsb_exists. exists (o, v).
@@ -882,8 +886,8 @@ Qed.
 
 Lemma missing_required_ok mt potential :
   fm_wf mt -> conflicts_with_args c mt = Some potential -> missing_required c mt potential = Some [] ->
-  (forall x, Required c mt x -> satisfied c mt x)
-  /\ (forall a, In a (c_args c) -> cond_required mt a -> present mt (a_id a) \/ exclusive_present c mt).
+  (forall x, Required c mt (present mt) x -> satisfied c (present mt) x)
+  /\ (forall a, In a (c_args c) -> cond_required mt (present mt) a -> present mt (a_id a) \/ exclusive_present c (present mt)).
 Proof.
   intros Wm Hp. rewrite missing_required_unfold.
   destruct (gather_requires c mt (required_graph c)) as [required|] eqn:Egr; [|discriminate].
@@ -914,4 +918,155 @@ Proof.
   - intros a Hin Hc. apply cond_b_spec in Hc. destruct (H2 a Hin) as [Hp2|Hn].
     + left. now apply present_spec.
     + right. rewrite Hc, andb_true_r in Hn. apply negb_false_iff in Hn. now apply excl_present_spec.
+Qed.
+
+(** ** [Validator::validate] is sound for [Relations] *)
+Theorem validate_sound_wf mt : fm_wf mt -> validate c mt = VOk -> Relations c mt.
+Proof.
+  intros Wm. unfold validate.
+  destruct (conflicts_with_args c mt) as [potential|] eqn:Hp; [|discriminate].
+  destruct (negb (is_some (mt_sub mt)) && is_set s_arg_required_else_help c && is_nil (explicit_entries mt)); [discriminate|].
+  destruct (negb (is_some (mt_sub mt)) && is_set s_sub_required c); [discriminate|].
+  destruct (validate_conflicts c mt potential) eqn:Hc; try discriminate.
+  intros H. unfold Relations. constructor.
+  - apply (validate_conflicts_ok mt potential Wm Hp Hc).
+  - apply validate_exclusive_ok. unfold validate_conflicts in Hc.
+    destruct (validate_exclusive c mt); try discriminate; reflexivity.
+  - unfold negates_reqs. intros Hn. rewrite Hn in H.
+    destruct (missing_required c mt potential) as [[|m l]|] eqn:Hm; try discriminate.
+    apply (missing_required_ok mt potential Wm Hp Hm).
+  - unfold negates_reqs. intros Hn. rewrite Hn in H.
+    destruct (missing_required c mt potential) as [[|m l]|] eqn:Hm; try discriminate.
+    apply (missing_required_ok mt potential Wm Hp Hm).
+Qed.
+End Sound.
+
+Theorem validate_sound c mt :
+  assert_app c = true -> fm_wf mt -> validate c mt = VOk -> Relations c mt.
+Proof. intros H. apply validate_sound_wf. now apply assert_app_rel_wf. Qed.
+
+(** consequence of (R1) spelled out: a non-[multiple] group has at most one present member *)
+Corollary group_single c mt g i j a :
+  Relations c mt -> In g (c_groups c) -> g_multiple g = false ->
+  In i (g_args g) -> In j (g_args g) -> arg_of c i a -> present mt i -> present mt j -> i = j.
+Proof.
+  intros R Hg Hm Hi Hj Ha Pi Pj. destruct (beq j i) eqn:E; [symmetry; now apply beq_eq|].
+  apply beq_neq in E. exfalso. destruct (rel_conflicts c mt _ R i a j Ha Pi Pj E) as [H _]. apply H.
+  left. exists a. split; [exact Ha|]. right. right. exists g. split; [split; assumption|]. right. auto.
+Qed.
+
+(** * Part 3: lifting through the parser *)
+
+(** a successful [get_matches_with] ends in a successful [validate] of the level's own matcher
+    (also under [ignore_errors]: a parse error of this level is returned, never swallowed here) *)
+Lemma gmw_validated fuel c toks st0 st :
+  get_matches_with fuel c toks st0 = ROk st -> validate c (mt st) = VOk.
+Proof.
+  destruct fuel as [|fuel]; cbn [get_matches_with]; [discriminate|].
+  match goal with |- (match ?p with _ => _ end) = _ -> _ => destruct p as [s|e s|n] end.
+  - unfold rbind. destruct (resolve_pending c s) as [s1| |]; try discriminate.
+    destruct (add_env c s1) as [s2| |]; try discriminate.
+    destruct (add_defaults c s2) as [s3| |]; try discriminate.
+    destruct (validate c (mt s3)) eqn:E; cbn [vres_to_res]; try discriminate.
+    intros [= <-]. exact E.
+  - destruct (is_set s_ignore_errors c); [|discriminate]. cbv zeta.
+    destruct (add_env c s); try discriminate;
+    match goal with |- context [add_defaults c ?x] => destruct (add_defaults c x) end; discriminate.
+  - discriminate.
+Qed.
+
+Theorem gmw_sound fuel c toks st0 st :
+  assert_app c = true -> get_matches_with fuel c toks st0 = ROk st -> fm_wf (mt st) -> Relations c (mt st).
+Proof. intros A H Wm. apply validate_sound; auto. now apply (gmw_validated fuel c toks st0). Qed.
+
+(** * Part 4: member-based presence of groups *)
+
+(** The property speaks of the explicitly supplied *arguments*; a group is present when one of
+    its members is.  [Relations] uses what the matches report for a group id (the group's own
+    entry).  The two notions agree on [coherent] matchers; [RelationsM] is the specification
+    with member-based presence. *)
+Definition present_members (mt : matcher) (g : group) : Prop := exists m, In m (g_args g) /\ present mt m.
+Definition presentM (c : cmd) (mt : matcher) (x : id) : Prop :=
+  match find_arg c x, find_group c x with
+  | None, Some g => present_members mt g
+  | _, _ => present mt x
+  end.
+Definition RelationsM (c : cmd) (mt : matcher) : Prop := RelationsP c mt (presentM c mt).
+
+Definition coherent (c : cmd) (mt : matcher) : Prop :=
+  forall x g, group_of c x g -> (present mt x <-> present_members mt g).
+Definition coherent_b (c : cmd) (mt : matcher) : bool :=
+  forallb (fun g => Bool.eqb (check_explicit mt (g_id g) PIsPresent)
+                             (existsb (fun m => check_explicit mt m PIsPresent) (g_args g))) (c_groups c).
+
+Lemma present_members_spec mt g :
+  existsb (fun m => check_explicit mt m PIsPresent) (g_args g) = true <-> present_members mt g.
+Proof.
+  unfold present_members. rewrite existsb_exists. split; intros (m & Hin & H); exists m; (split; [exact Hin|]); now apply present_spec.
+Qed.
+Lemma coherent_b_sound c mt : coherent_b c mt = true -> coherent c mt.
+Proof.
+  unfold coherent_b, coherent. rewrite forallb_forall. intros H x g [_ Hg].
+  destruct (find_group_id c x g Hg) as [Hid Hin]. specialize (H g Hin). apply eqb_prop in H.
+  rewrite Hid in H. rewrite <- present_spec, <- present_members_spec, H. tauto.
+Qed.
+Lemma coherent_b_complete c mt : assert_app c = true -> coherent c mt -> coherent_b c mt = true.
+Proof.
+  intros A Hc. pose proof (assert_app_rel_wf c A) as W.
+  unfold coherent_b. apply forallb_forall. intros g Hin.
+  assert (find_arg c (g_id g) = None) as Hna.
+  { unfold assert_app in A. repeat (apply andb_true_iff in A as [A ?]).
+    match goal with Hg : forallb _ (c_groups c) = true |- _ => rename Hg into HG end.
+    rewrite forallb_forall in HG. specialize (HG g Hin). repeat (apply andb_true_iff in HG as [HG ?]).
+    match goal with Hn : negb (is_some (find_arg c (g_id g))) = true |- _ =>
+      destruct (find_arg c (g_id g)); [discriminate Hn | reflexivity] end. }
+  destruct (rel_wf_group c g W Hin) as [Hf _].
+  specialize (Hc (g_id g) g (conj Hna Hf)). rewrite <- present_spec, <- present_members_spec in Hc.
+  destruct (check_explicit mt (g_id g) PIsPresent), (existsb _ (g_args g)); try reflexivity; exfalso;
+    destruct Hc as [H1 H2]; (discriminate (H1 eq_refl) || discriminate (H2 eq_refl)).
+Qed.
+
+Lemma coherent_presentM c mt : coherent c mt -> forall x, present mt x <-> presentM c mt x.
+Proof.
+  intros Hc x. unfold presentM. destruct (find_arg c x) eqn:Ea; [tauto|].
+  destruct (find_group c x) as [g|] eqn:Eg; [|tauto]. apply Hc. split; assumption.
+Qed.
+
+Lemma RelationsP_ext c mt P P' : (forall x, P x <-> P' x) -> RelationsP c mt P -> RelationsP c mt P'.
+Proof.
+  intros E R.
+  assert (Hex : exclusive_present c P -> exclusive_present c P').
+  { intros (e & b & Ha & Hx & Hp). exists e, b. split; [exact Ha|]. split; [exact Hx|]. now apply E. }
+  assert (Hexc : forall x, excused c P x -> excused c P' x).
+  { intros x [(y & Hp & H)|(g & y & Hm & Hp & H)].
+    - left. exists y. split; [now apply E | exact H].
+    - right. exists g, y. split; [exact Hm|]. split; [now apply E | exact H]. }
+  assert (Hreq : forall x, Required c mt P' x -> Required c mt P x).
+  { intros x H. destruct H as [a Hin Hr | g Hin Hr | g y Hin Hr Hy | x g y Hg Hp Hy | root m y Hg Hm HR].
+    - now apply Rq_static.
+    - now apply Rq_group.
+    - now apply (Rq_group_requires c mt P g).
+    - apply (Rq_present_group c mt P x g); auto. now apply E.
+    - now apply (Rq_requires c mt P root m). }
+  constructor.
+  - intros i a x Ha Pi Px. apply (rel_conflicts c mt P R i a x Ha); now apply E.
+  - intros i a j b Ha Hx Pi Hb Pj. apply (rel_exclusive c mt P R i a j b Ha Hx); auto; now apply E.
+  - intros Hn x Hr. destruct (rel_required c mt P R Hn x (Hreq x Hr)) as [S1 S2]. split.
+    + intros a Ha. destruct (S1 a Ha) as [H|[H|H]]; [left; now apply E | right; left; auto | right; right; auto].
+    + intros g Hg. destruct (S2 g Hg) as [H|(m & Hin & H)]; [left; now apply E | right; exists m; split; [exact Hin | now apply E]].
+  - intros Hn a Hin Hc. destruct (rel_cond_required c mt P R Hn a Hin) as [H|H].
+    + destruct Hc as [H1|[H2|(Hne & Hany & Hall)]]; [left; exact H1 | right; left; exact H2 |].
+      right. right. split; [exact Hne|]. split.
+      * intros o Ho Hp. apply (Hany o Ho). now apply E.
+      * destruct Hall as [Hnil|(o & Ho & Hn')]; [now left | right; exists o; split; [exact Ho|]]. intros Hp. apply Hn'. now apply E.
+    + left. now apply E.
+    + right. auto.
+Qed.
+
+Theorem validate_sound_members c mt :
+  assert_app c = true -> fm_wf mt -> coherent_b c mt = true -> validate c mt = VOk -> RelationsM c mt.
+Proof.
+  intros A Wm Hc Hv. apply (RelationsP_ext c mt (present mt)).
+  - apply coherent_presentM. now apply coherent_b_sound.
+  - now apply validate_sound.
 Qed.
